@@ -357,13 +357,35 @@ Proof. apply p2sh_p2wpkh_complete; [reflexivity|reflexivity|discriminate|reflexi
 (* 2-of-3 leaf: signatures for keys 1 and 3, an empty element for key 2 (stack: the element for x1 on top) *)
 Definition ex_so_tap : sigops :=
   {| so_checksig := fun _ _ => Ok false; so_multisig := fun _ _ => Ok false; so_xonly_ok := fun _ => true;
-     so_schnorr := fun x sg _ => Ok (beq sg (9 :: x)) |}.
+     so_schnorr := fun _ sg _ => Ok (beq sg [9]) |}.
 Example C06_nonvacuous_tap_multisig :
   exists fuel,
   vloop secp256k1 (fun x => x) (fun x => x) (fun x => x) ex_h160 (fun x => x) ex_so_tap
     {| t_locktime := 0; t_sequence := 0; t_version := 2 |} [] fuel
-    (tap_multisig_script 2 [[1]; [2]; [3]]) ([[9; 1]; []; [9; 3]] ++ []) [] (fl_off true) = OTrue.
-Proof. eexists. apply tap_multisig_complete; [lia|reflexivity]. Qed.
+    (tap_multisig_script 2 [[1]; [2]; [3]]) ([[9]; []; [9]] ++ []) [] (fl_off true) = OTrue.
+Proof.
+  exists (2 * length [[1]; [2]; [3]] + 2 + 0)%nat.
+  apply (tap_multisig_complete _ _ _ _ _ _ _ _ _ 2 [1] [[2]; [3]]); [lia|reflexivity].
+Qed.
+
+(* a complete script-path spend on the toy curve y^2 = x^3 + 7 over F_43 (Proofs/ToyCurve.v) with a toy hash:
+   1-of-2 leaf, internal key G, the hypotheses of C06_p2tr_tap_multisig_complete hold and the input is accepted *)
+From V Require Proofs.ToyCurve.
+Definition ex_sha (b : bytes) : bytes := to_be 32 (1 + fold_left Z.add b 0 mod 29).
+Definition ex_xkey : bytes := to_be 32 2.
+Definition ex_leaf_raw : bytes := 32 :: ex_xkey ++ [172] ++ 32 :: ex_xkey ++ [186; 81; 135].
+Definition ex_tap_witness : list bytes := [[9]; []; ex_leaf_raw; 192 :: ex_xkey].
+Example C06_nonvacuous_p2tr_script_path :
+  script_path_commit_check ToyCurve.toy ex_sha (to_be 32 29) ex_tap_witness = Ok true /\
+  verify_input ToyCurve.toy (fun x => x) (fun x => x) ex_sha ex_h160 (fun x => x) ex_so_tap
+    {| t_locktime := 0; t_sequence := 0; t_version := 2 |} ex_tap_witness [] (p2tr_script (to_be 32 29)) = OTrue.
+Proof.
+  assert (script_path_commit_check ToyCurve.toy ex_sha (to_be 32 29) ex_tap_witness = Ok true) as Hc
+    by (vm_compute; reflexivity).
+  split; [exact Hc|].
+  eapply (p2tr_tap_multisig_complete _ _ _ _ _ _ _ _ _ _ 1 ex_xkey [ex_xkey]);
+    [reflexivity|lia|reflexivity|exact Hc|vm_compute; reflexivity|reflexivity|reflexivity].
+Qed.
 
 (* The constants written in the model are the constants of the SOURCE: coq/Generated/SrcConsts.v is regenerated
    from /repo/buidl/*.py by harness/gen_coq_consts.py on every run; the statements are spelled out in
